@@ -34,7 +34,7 @@ PROPS["C02"] = {
     "level": "exploration",
     "rule": "case = one seeded mutating history; a crash point = every boundary between API calls at which no handle holds "
             "unflushed data; at each, the MonFile bytes taken WITHOUT flush are reopened permissive and strict and the full dump "
-            "compared with model and live object; 15% of crash points fork the next 5-15 operations onto the reopened file. "
+            "compared with model and live object; 15% of crash points fork the next 5-15 operations onto the reopened file; a fifth of the histories start from a synthesised foreign layout; four shards run a large scenario instead (v3 past the first DIFAT sector - thorough: the second -, v4 past 1024 sectors, v4 past 1024 mini sectors and 32 directory entries) with a crash point at every new FAT / MiniFAT / directory sector. "
             "non-trivial = history of >= 5 steps that was not abandoned; distinct = FNV-64 of (version, step list)",
     "assumptions": COMMON_ASSUMPTIONS + ["only logical results are compared after a reopen (free lists are rebuilt in index order, so byte images may legitimately differ)"],
     "checked_share": 0.6,
@@ -42,7 +42,7 @@ PROPS["C02"] = {
     "thorough": {"budget_s": 300},
     "floors": {
         "quick": {"crash_points": 50000, "forks": 5000, "hdr_change.num_fat_sectors": 100, "hdr_change.num_minifat": 1000, "hdr_change.first_minifat": 500,
-                  "large_scenarios": 4, "large_scenario.crash_points_with_difat_sector": 20},
+                  "large_scenarios": 4, "large_scenario.crash_points_with_difat_sector": 10, "large_scenario.variant1.crash_points": 4, "large_scenario.variant3.crash_points": 6},
         "thorough": {"crash_points": 500000, "forks": 50000},
     },
 }
@@ -50,7 +50,7 @@ PROPS["C02"] = {
 PROPS["C03"] = {
     "level": "exploration",
     "rule": "case = one seeded history (or, for case 0 of each shard, a large scenario: v3 image with a DIFAT sector / many small "
-            "streams / v4 with several FAT sectors / v3 with more DIFAT growth); after EVERY successful step the raw bytes are judged "
+            "streams / v4 with several FAT sectors / v3 with more DIFAT growth / v4 with many small streams); after EVERY successful step the raw bytes are judged "
             "by the independent rule checker (refparse.rs, 60 rules). non-trivial = history with >= 5 steps and >= 1 removal; "
             "distinct = FNV-64 of (version, step list)",
     "assumptions": COMMON_ASSUMPTIONS + [
@@ -61,7 +61,7 @@ PROPS["C03"] = {
     "quick": {"budget_s": 22},
     "thorough": {"budget_s": 300},
     "floors": {
-        "quick": {"images_checked": 100000, "images_with_difat_sector": 1, "large_scenario.1": 1, "large_scenario.2": 1},
+        "quick": {"images_checked": 100000, "images_with_difat_sector": 1, "large_scenario.1": 1, "large_scenario.2": 1, "large_scenario.4": 1},
         "thorough": {"images_checked": 1000000, "images_with_difat_sector": 2},
     },
 }
@@ -107,7 +107,7 @@ PROPS["C08"] = {
     "level": "exploration",
     "rule": "case = one seeded history over 5 stream names of create+write / remove / shrink / grow (lengths on both sides of 64, "
             "512, 4096, sector size), all payload bytes non-zero; after every growing set_len the gained range is read through the same "
-            "handle, after flush through a reopen in both modes, and must be all zero; a stale byte is classified by provenance. "
+            "handle, after flush through a reopen in both modes, and must be all zero; a stale byte is classified by provenance; one in ten steps keeps a single handle open across long write / shrink / write at the new end / grow. "
             "non-trivial = history containing >= 1 checked grow; distinct = FNV-64 of steps",
     "assumptions": COMMON_ASSUMPTIONS,
     "checked_share": 0.6,
@@ -163,10 +163,12 @@ PROPS["C10"] = {
 PROPS["C15"] = {
     "level": "exploration",
     "rule": "case = random prefix history (fill levels steered to whole-sector multiples of mini sectors, sometimes emptied) followed "
-            "by 4-6 repetitions of one of 7 net-zero cycle templates (create-write-remove, nested storages + remove_storage_all, "
+            "by 5-10 repetitions of one of 10 net-zero cycle templates (create-write-remove, nested storages + remove_storage_all, "
             "grow-then-shrink, overwrite with same content, several streams created then removed in same/reverse order, truncate-and-"
-            "rewrite, storage + state bits), sizes below and above 4096; the model certifies the cycle is net-zero, then the length of "
-            "the backing store after repetition r >= 2 must equal that after repetition 1. non-trivial = cycle certified net-zero and "
+            "rewrite, rewrite across the 4096 cutoff through a new handle, append across the cutoff and shrink back, large -> small -> "
+            "remove, storage + state bits), a quarter of them with a reopen at the end of every repetition; the model certifies the "
+            "cycle is net-zero, then the length of the backing store after every repetition r >= 3 must equal that after repetition 2 "
+            "('unchanged from the second repetition on'). non-trivial = cycle certified net-zero and "
             "measured; distinct = FNV-64 of steps",
     "assumptions": COMMON_ASSUMPTIONS,
     "checked_share": 0.5,
@@ -203,8 +205,8 @@ PROPS["C18"] = {
     "level": "exploration",
     "rule": "case = one explicit history (generated once against the model, exact-count calls only, storage times pinned through the "
             "API, dirty handles flushed before queries) replayed under: A in-memory, A' the same again, C in-memory with 35% shortened "
-            "and 10% spuriously Interrupted underlying reads/writes, B a real std::fs::File via cfb::create / create_with_version and "
-            "re-read via cfb::open / open_rw (1 in 6 histories), D another max_buffer_size, E the other format version; per-call "
+            "and 10% spuriously Interrupted underlying reads/writes, B a real std::fs::File via cfb::create (over an older, larger file "
+            "left at that path) / create_with_version and re-read via cfb::open / open_rw (1 in 6 histories), D another max_buffer_size, E the other format version; per-call "
             "normalised outcomes and final dump must be identical across all, final bytes identical across A, A', B, C. "
             "non-trivial = >= 10 steps; distinct = FNV-64 of steps",
     "assumptions": COMMON_ASSUMPTIONS + ["the reported 'length' of storages/root (physical mini-stream size) is not compared across buffer sizes / versions"],
@@ -285,7 +287,7 @@ PROPS["C16"] = {
     "rule": "part A (every 3rd case): an input from C05's generator (valid bases, benign and hostile corruptions); whenever strict open "
             "accepts it, permissive must accept it and both dumps (tree, metadata, bytes) must be identical. part B: a valid base "
             "(library-written, synthesised foreign layout, synthesised with 1-2 DIFAT sectors, library-written with a DIFAT sector) with "
-            "1-4 of the 18 documented deviations injected at a random applicable place (DIFAT-related ones steered into pairs): "
+            "1-4 of the 18 documented deviations injected at a random applicable place with varied values (whole / partial zero padding, unmarked cells holding special markers, zero or stale sector numbers, root names with forbidden characters; DIFAT-related ones steered into pairs): "
             "permissive open must give exactly the undamaged file's dump and strict open must reject. non-trivial = part A input accepted "
             "by strict, or part B input judged; distinct = FNV-64 of the input bytes",
     "assumptions": COMMON_ASSUMPTIONS + [
@@ -312,8 +314,8 @@ PROPS["C12"] = {
     "rule": "workload = (library-written image with mini and regular streams in both versions, read-only call script: open, walk, lookups, "
             "per stream ~14 buffered reads in odd chunk sizes / fill_buf+consume / forward and backward seeks through a 1024-byte buffer, "
             "read_to_end) on a Read+Seek-only backend; the fault-free run counts the N underlying read/seek calls; then a one-shot failure "
-            "is injected at EVERY position k < N (kinds Other, UnexpectedEof, TimedOut, plus 'short then fail'), each API call is retried "
-            "up to 3x after an error; pairs (k1,k2) exhaustively when N <= 150 else 1500 (quick) / 20000 (thorough) sampled pairs. One "
+            "is injected at EVERY position k < N (kinds Other, UnexpectedEof, TimedOut, plus 'short then fail'); after a failed read the "
+            "script looks behind the position (seek back, read, seek forward) and then retries the call up to 3x; pairs (k1,k2) exhaustively when N <= 150 else 1500 (quick) / 20000 (thorough) sampled pairs. One "
             "workload per shard in quick (16), 6 per shard in thorough. evaluations = faulty runs; distinct_nontrivial = distinct "
             "(workload, position, variant) triples; exhaustive = every workload's single-fault positions were all visited",
     "assumptions": COMMON_ASSUMPTIONS + ["raw read counts after a fault may differ from the fault-free run (only exact-valued calls are compared with it); bytes are checked against the stream's true content at the model position"],
@@ -334,7 +336,8 @@ PROPS["C13"] = {
             "overwrite, remove, metadata, CompoundFile::flush; handles always flushed explicitly); a one-shot failure is injected at "
             "EVERY position of the underlying write calls, of the seek calls and of the flush calls (every third write fault as 'short "
             "write then fail'); each failed API call is retried up to 2x. Oracles: the API call inside which the underlying call failed "
-            "returns Err; no panic; whenever Stream::flush returns Ok a fresh handle reads back every byte accepted by earlier write "
+            "returns Err; no panic and no request on the (instrumented) lock that would block forever; an Ok flush implies the underlying "
+            "writer was flushed after its last write; an Ok set_len shows the new length to a fresh lookup; whenever Stream::flush returns Ok a fresh handle reads back every byte accepted by earlier write "
             "calls on that handle, and so does the reopened byte image - also after a failed flush. One workload per shard in quick (two script families alternate over the shards), six in thorough. evaluations = faulty runs; "
             "distinct_nontrivial = distinct (workload, kind, position); exhaustive = all positions of all three kinds visited",
     "assumptions": COMMON_ASSUMPTIONS + ["errors swallowed by Stream::drop are outside the property (handles are flushed explicitly, and leaked rather than dropped if that keeps failing)",
